@@ -617,6 +617,53 @@ func genRpcFacts(root *pkgSrc) {
 		}
 		fmt.Fprintf(&b, "  (%s, %s)%s  -- %s -> %s (line %d)\n", leanText(x.caller), leanText(x.callee), sep, x.caller, x.callee, x.line)
 	}
+	b.WriteString("]\n\n")
+
+	// 8. the pending tables of server→client requests: `close(...)` inside the functions that wait for / deliver a peer's
+	// response (SendRequest, *Response*): the waiter leaves by deleting its entry; a channel it closed would make the
+	// deliverer — which looked the channel up before — panic with "send on closed channel"
+	type closeSite struct {
+		file, fn, text string
+		line           int
+	}
+	var closes []closeSite
+	var waiters []string
+	for _, file := range []string{"stdio_server.go", "sse_server.go", "streamable_server.go", "server.go"} {
+		f := root.files[file]
+		if f == nil {
+			closes = append(closes, closeSite{file, "?", "file not found", 0})
+			continue
+		}
+		for _, d := range f.Decls {
+			fd, ok := d.(*ast.FuncDecl)
+			if !ok || fd.Body == nil {
+				continue
+			}
+			name := funcName(fd)
+			if !strings.Contains(name, "SendRequest") && !strings.Contains(name, "Response") {
+				continue
+			}
+			waiters = append(waiters, name)
+			ast.Inspect(fd.Body, func(n ast.Node) bool {
+				if call, ok := n.(*ast.CallExpr); ok {
+					if id, ok := call.Fun.(*ast.Ident); ok && id.Name == "close" {
+						closes = append(closes, closeSite{file, name, rpcSquash(root.text(call)), root.line(call)})
+					}
+				}
+				return true
+			})
+		}
+	}
+	sort.Strings(waiters)
+	fmt.Fprintf(&b, "/-- the functions of the three servers that wait for or deliver a peer's response to a server request -/\ndef rpcResponseFunctions : List Text := [%s]\n\n", rpcLeanTexts(waiters))
+	b.WriteString("/-- `close(…)` calls inside them: (function, expression) -/\ndef rpcResponseChannelCloses : List (Text × Text) := [\n")
+	for i, x := range closes {
+		sep := ","
+		if i == len(closes)-1 {
+			sep = ""
+		}
+		fmt.Fprintf(&b, "  (%s, %s)%s  -- %s %s line %d\n", leanText(x.fn), leanText(x.text), sep, x.file, x.fn, x.line)
+	}
 	b.WriteString("]\n\nend Mcp.Gen\n")
 	writeIfChanged("RpcFacts.lean", b.String())
 }
